@@ -2,7 +2,7 @@
 import numpy as np
 
 from .. import casecheck
-from ..pool import contract, metadata_problem, core_arrays, carray
+from ..pool import contract, metadata_problem, core_arrays, carray, value_snapshot, value_changed
 
 ASSUME = [
     'islands of spec/Dmd.tla: Y = A X with A = S diag(d) S^-1 (unimodular S), X of full row rank: DMD eigenvalues are the planted integers exactly; general integer trains are compared with numpy matrix DMD of the unfoldings (numeric evaluator) with the same relative cut',
@@ -67,7 +67,7 @@ def replay(case):
                     kw['ortho_l'] = False
                 xx = xx.ortho_right(start_index=x.order - 1, end_index=x.order - 1)
                 kw['ortho_r'] = False
-            xval, yval = contract(xx.cores).copy(), contract(y.cores).copy()
+            snaps = value_snapshot([xx, y])
             for name, f in (('exact', tdmd.tdmd_exact), ('standard', tdmd.tdmd_standard)):
                 tag = 'tdmd_%s' % name
                 try:
@@ -109,9 +109,10 @@ def replay(case):
                 if np.min(nz) < 1e-12 or np.max(np.linalg.norm(R, axis=0) / nz) > 1e-6 * scale:
                     out.append(('%s:modes' % tag, 'modes do not satisfy the %s DMD eigen-equation (max residual %.3e)' % (
                         name, np.max(np.linalg.norm(R, axis=0) / np.maximum(nz, 1e-300)))))
-            if np.max(np.abs(contract(xx.cores) - xval)) > 1e-9 * max(1.0, float(np.max(np.abs(xval)))) or \
-                    np.max(np.abs(contract(y.cores) - yval)) > 1e-9 * max(1.0, float(np.max(np.abs(yval)))):
-                out.append(('operand_changed', 'tdmd modified its input trains (dims %r, ranks %r)' % (dims, x.ranks)))
+            why = value_changed(snaps)
+            if why:
+                out.append(('operand_changed', 'tdmd modified its input trains (%s; dims %r, ranks %r)' % (why, dims, x.ranks)))
+                return out
     return out
 
 
